@@ -470,6 +470,10 @@ class Engine:
             c = self.ev(st, e.slice)
             if not self.in_spec: self.emit(st, "bounds", z3.And(c.z >= 0, c.z < base.z), e.lineno, "[chunk]")      # numba typed lists raise IndexError; negative would wrap
             return self.chunk_view(base, c.z)
+        if base.kind == "optlist":
+            c = self.ev(st, e.slice)
+            if not self.in_spec: self.emit(st, "bounds", z3.And(c.z >= 0, c.z < base.z), e.lineno, "[list entry]")
+            return Val("opaque", base.term(c.z))
         if base.kind == "tuple" and isinstance(e.slice, ast.Constant): return base.items[e.slice.value]
         raise Unsupported(f"subscript on {base.kind}")
 
@@ -490,6 +494,7 @@ class Engine:
             if a.kind == "arr": return Val("int", self.arr_len(st, a))
             if a.kind == "chunks": return Val("int", a.z)
             if a.kind == "struct" and "__len__" in a.items: return a.items["__len__"]
+            if a.kind == "optlist": return Val("int", a.z)
         if fname == "is_null": return Val("bool", self.is_null(args[0]))
         if fname == "getattr" and len(args) == 2 and args[1].kind == "func": return args[1]      # getattr(ScalarFuncs, name): the name parameter is instantiated as the step function it names
         if fname == "np.isnan": return Val("bool", f_isnan(self.to_float(args[0])))
@@ -598,6 +603,16 @@ class Engine:
             if kind.startswith("arr:"):
                 _, elem, dtype = kind.split(":"); n = self.ev_spec_term(cst, cc["result_len"][k])
                 ref = st.heap.new(elem, dtype, (n,), None, f"{fname}_r{k}"); results.append(Val("arr", ref=ref, elem=elem, dtype=dtype))
+            elif kind.startswith("chunkstruct:"):
+                # an object read only through `.chunks` (a pyarrow ChunkedArray of codes): a fresh list of arrays of unknown number and lengths
+                _, elem, dtype = kind.split(":"); u = next(self.fresh)
+                n_ = z3.Int(f"nchunks_{fname}_r{k}!{u}"); ln = z3.Function(f"clen_{fname}_r{k}!{u}", I, I); ch = z3.Function(f"chunk_{fname}_r{k}!{u}", I, z3.ArraySort(I, sort_of(elem)))
+                c_ = z3.Int(f"c?{next(self.fresh)}"); st.pc.append(n_ >= 0); st.pc.append(z3.ForAll([c_], ln(c_) >= 0, patterns=[ln(c_)]))
+                results.append(Val("struct", items={"chunks": Val("chunks", z=n_, items=(ln,), term=ch, elem=elem, dtype=dtype)}, name=f"{fname}_r{k}"))
+            elif kind == "optlist":
+                # a Python list whose entries are handed on unread (None or an array per entry): only its length and "entry i" exist for the caller
+                u = next(self.fresh); n_ = z3.Int(f"len_{fname}_r{k}!{u}"); st.pc.append(n_ >= 0)
+                results.append(Val("optlist", z=n_, term=z3.Function(f"entry_{fname}_r{k}!{u}", I, V)))
             else: results.append(Val(kind, self.fc(f"{fname}_r{k}", sort_of(kind))))
         rv = results[0] if len(results) == 1 else Val("tuple", items=tuple(results))
         # ghost results: witnesses the callee was PROVED to produce (its own ghost variables at return); the caller sees them as callghost_<name>
@@ -796,7 +811,58 @@ class Engine:
         for t in s.targets: self.assign(st, t, val, s.lineno)
         return [("normal", st, None)]
 
+    def vec_inplace_add(self, st, s):
+        """NumPy in-place vector updates of an int64 array, exactly as NumPy defines them:
+             a += b            (same length)       a[j] becomes a[j] + b[j]
+             a[idx] += b       (integer array idx) for pairwise distinct positions: a[idx[l]] becomes a[idx[l]] + b[l], every other slot keeps its value.
+           With a REPEATED position NumPy's buffered fancy `+=` counts only one of the addends - never what a scatter-add is meant to do - so pairwise distinctness of the
+           positions is an obligation (kind `distinct`), as are the bounds of every position and the equal lengths."""
+        tgt = s.target; rhs = self.ev(st, s.value)
+        if isinstance(tgt, ast.Name):
+            a = st.env[tgt.id]; na, nb_ = self.arr_len(st, a), self.arr_len(st, rhs)
+            self.emit(st, "shape", na == nb_, s.lineno, f"[{tgt.id} += array]")
+            old = st.heap.arr[a.ref]; new = self.fc(tgt.id, old.sort())
+            if self.bmc and self.conc(na) is not None:
+                for i_ in range(self.conc(na)): st.pc.append(z3.Select(new, i_) == z3.Select(old, i_) + self.arr_read(st, rhs, z3.IntVal(i_), s.lineno, check=False))
+            else:
+                j = z3.Int(f"j?{next(self.fresh)}")
+                st.pc.append(z3.ForAll([j], z3.Implies(z3.And(j >= 0, j < na), z3.Select(new, j) == z3.Select(old, j) + self.arr_read(st, rhs, j, s.lineno, check=False)), patterns=[z3.Select(new, j)]))
+            if a.ref in self.frozen: self.emit(st, "frame", z3.BoolVal(False), s.lineno, f"[{self.frozen[a.ref]}]")
+            st.heap.arr[a.ref] = new; return
+        a = self.ev(st, tgt.value); idx = self.ev(st, tgt.slice); na, ni, nb_ = self.arr_len(st, a), self.arr_len(st, idx), self.arr_len(st, rhs)
+        label = st.heap.meta[a.ref][3]
+        self.emit(st, "shape", ni == nb_, s.lineno, f"[{label}[positions] += array]")
+        l1, l2 = z3.Int(f"l?{next(self.fresh)}"), z3.Int(f"l?{next(self.fresh)}")
+        rd = lambda l: self.arr_read(st, idx, l, s.lineno, check=False)
+        self.emit(st, "bounds", z3.ForAll([l1], z3.Implies(z3.And(l1 >= 0, l1 < ni), z3.And(rd(l1) >= -na, rd(l1) < na))), s.lineno, f"[{label}[positions]]")
+        if label in self.contract.get("nonneg_index", ()): self.emit(st, "negindex", z3.ForAll([l1], z3.Implies(z3.And(l1 >= 0, l1 < ni), rd(l1) >= 0)), s.lineno, f"[{label}]")
+        self.emit(st, "distinct", z3.ForAll([l1, l2], z3.Implies(z3.And(l1 >= 0, l1 < l2, l2 < ni), rd(l1) != rd(l2))), s.lineno, f"[{label}[positions] += array]")
+        wrap = lambda v: z3.If(v < 0, v + na, v)
+        old = st.heap.arr[a.ref]; new = self.fc(label, old.sort())
+        if self.bmc and self.conc(na) is not None and self.conc(ni) is not None:
+            for g_ in range(self.conc(na)):
+                tot = z3.Select(old, g_)
+                for l_ in range(self.conc(ni)): tot = tot + z3.If(wrap(rd(z3.IntVal(l_))) == g_, self.arr_read(st, rhs, z3.IntVal(l_), s.lineno, check=False), 0)
+                st.pc.append(z3.Select(new, g_) == tot)
+        else:
+            g = z3.Int(f"g?{next(self.fresh)}")
+            st.pc.append(z3.ForAll([l1], z3.Implies(z3.And(l1 >= 0, l1 < ni), z3.Select(new, wrap(rd(l1))) == z3.Select(old, wrap(rd(l1))) + self.arr_read(st, rhs, l1, s.lineno, check=False)), patterns=[rd(l1)]))
+            st.pc.append(z3.ForAll([g], z3.Implies(z3.And(g >= 0, g < na, z3.ForAll([l2], z3.Implies(z3.And(l2 >= 0, l2 < ni), wrap(rd(l2)) != g))), z3.Select(new, g) == z3.Select(old, g)), patterns=[z3.Select(new, g)]))
+        if a.ref in self.frozen: self.emit(st, "frame", z3.BoolVal(False), s.lineno, f"[{self.frozen[a.ref]}]")
+        st.heap.arr[a.ref] = new
+
     def ex_AugAssign(self, st, s):
+        if isinstance(s.op, ast.Add):
+            saved = self.in_spec; self.in_spec = True          # classify without emitting obligations
+            try:
+                probe_t = self.ev(st, s.target.value) if isinstance(s.target, ast.Subscript) else st.env.get(s.target.id) if isinstance(s.target, ast.Name) else None
+                probe_i = self.ev(st, s.target.slice) if isinstance(s.target, ast.Subscript) and not isinstance(s.target.slice, (ast.Slice, ast.Tuple)) else None
+            except (Unsupported, Stale): probe_t = probe_i = None
+            finally: self.in_spec = saved
+            vec = probe_t is not None and probe_t.kind == "arr" and probe_t.ref is not None and probe_t.ndim == 1 and probe_t.elem == "int" and \
+                ((isinstance(s.target, ast.Name)) or (probe_i is not None and probe_i.kind == "arr"))
+            if vec:
+                self.vec_inplace_add(st, s); return [("normal", st, None)]
         cur = self.ev(st, ast.parse(ast.unparse(s.target), mode="eval").body) if True else None
         # re-evaluate with line numbers
         tgt_load = ast.parse(ast.unparse(s.target), mode="eval").body
@@ -826,8 +892,9 @@ class Engine:
 
     # ---- loops
     def modified(self, body):
-        names, arrays = set(), set()
+        names, arrays = set(), set(); self._aug_names = set()
         for n in ast.walk(ast.Module(body=body, type_ignores=[])):
+            if isinstance(n, ast.AugAssign) and isinstance(n.target, ast.Name): self._aug_names.add(n.target.id)
             if isinstance(n, (ast.Assign, ast.AugAssign)):
                 for t in (n.targets if isinstance(n, ast.Assign) else [n.target]):
                     for x in ast.walk(t):
@@ -931,6 +998,8 @@ class Engine:
         for nme in sorted(names):
             v = h.env.get(nme)
             if v is not None and v.kind in ("int", "float", "bool", "opaque"): h.env[nme] = Val(v.kind, self.fc(nme, sort_of(v.kind)))
+        inplace = {nm for nm in getattr(self, "_aug_names", set()) if nm in h.env and h.env[nm].kind == "arr" and h.env[nm].ref is not None}
+        arrays = set(arrays) | inplace
         done_refs = set()
         for a in sorted(set(arrays) | set(lc.get("ghost_arrays", []))):
             v = h.env.get(a)
@@ -942,7 +1011,7 @@ class Engine:
         # array-valued locals that are re-assigned inside the loop and live across iterations (arr = arr_list[arr_num]): the contract names what they are
         # bound to at every loop head ("rebind"); it is checked on entry and at every loop end, and anything else is refused
         rebind = lc.get("rebind", {})
-        for nme in sorted(self.assigned_names(s.body)):
+        for nme in sorted(self.assigned_names(s.body) - self.plain_aug_only(s.body)):
             v = st.env.get(nme)
             if v is not None and v.kind in ("arr", "chunks") and nme not in rebind:
                 # the local is bound to a NEW array in every iteration (combined = reduce_array_pair(combined, ...)): at the loop head it is an arbitrary array the
@@ -1068,6 +1137,18 @@ class Engine:
         if a.cidx is not None and b.cidx is not None: return a.cidx == b.cidx
         if a.ref is not None and a.ref == b.ref and a.off is None and b.off is None and a.row is None and b.row is None: return z3.BoolVal(True)
         raise Unsupported("rebind: views are not comparable")
+
+    def plain_aug_only(self, body):
+        """names that are only ever updated with `name += ...` in the body (for arrays: NumPy's in-place update of the same object, not a re-binding)"""
+        aug, asg = set(), set()
+        for n in ast.walk(ast.Module(body=body, type_ignores=[])):
+            if isinstance(n, ast.AugAssign) and isinstance(n.target, ast.Name) and isinstance(n.op, ast.Add): aug.add(n.target.id)
+            elif isinstance(n, ast.AugAssign) and isinstance(n.target, ast.Name): asg.add(n.target.id)
+            elif isinstance(n, ast.Assign):
+                for t in n.targets:
+                    for x in ([t] if isinstance(t, ast.Name) else (t.elts if isinstance(t, ast.Tuple) else [])):
+                        if isinstance(x, ast.Name): asg.add(x.id)
+        return aug - asg
 
     def assigned_names(self, body):
         out = set()
